@@ -43,6 +43,12 @@ def fmt_literal(n):
     return None
 
 
+def _is_query(y, wrappers):
+    if y.get("k") == "mcall" and y.get("name") == "simple_query":
+        return True
+    return y.get("k") == "call" and "f" in y and ir.local_hid(y["f"]) in wrappers and len(y.get("a", ())) == 2
+
+
 def pair_rule(ck, P, reader_suffix, name):
     opens = [b for b in P.bodies if b["q"].endswith(reader_suffix + "::open_path")]
     impl = [i for i in P.impls_of("::TilesReaderTrait") if i.get("self_adt", "").endswith(reader_suffix)]
@@ -178,6 +184,12 @@ def rules(ck, P):
             if depth > 3:
                 return lit
             return re.sub(r"\{(\w+)\}", lambda m: expand(frag[m.group(1)], depth + 1) if m.group(1) in frag else m.group(0), lit)
+        # local closures that wrap simple_query (e.g. to turn a NULL aggregate into an error) count as query calls
+        wrappers = set()
+        for n in ir.walk_nodes(b["body"]):
+            if n.get("k") == "let" and n["pat"].get("k") == "bind" and n.get("init", {}).get("k") == "closure" and \
+                    ir.contains(n["init"]["body"], lambda y: y.get("k") == "mcall" and y.get("name") == "simple_query"):
+                wrappers.add(n["pat"]["hid"])
         queries = []   # (target var, aggregate, where)
         for n in ir.walk_nodes(b["body"]):
             tgt = None
@@ -188,7 +200,9 @@ def rules(ck, P):
                 tgt, val = ir.place_str(n["l"]), n["r"]
             if val is None:
                 continue
-            calls = [y for y in ir.walk_nodes(val) if y.get("k") == "mcall" and y.get("name") == "simple_query"]
+            if val.get("k") == "closure":
+                continue
+            calls = [y for y in ir.walk_nodes(val) if _is_query(y, wrappers)]
             if len(calls) == 1 and ir.strip(val) is not None:
                 agg = ir.const_eval_str(calls[0]["a"][0])
                 fl = fmt_literal(calls[0]["a"][1])
